@@ -1,5 +1,6 @@
 import GeomV.C07.Spec
 import GeomV.C07.JsonText
+import GeomV.C07.ModelIO
 /-!
 Driver for C07.  `geomv_c07 judge` reads `<input> => <what the implementation did>` lines and prints
 one verdict per line:
@@ -86,11 +87,24 @@ def predWkb (bs : Bytes) : Pred :=
   | .ok g => { cls := "ok", geom := some g, cost := r.cost }
   | .error e => { cls := errName e, cost := r.cost }
 
+/-- class of an `encoding/hex` error as the harness prints it: `hexlen` / `hexbyte:<the byte, two hex digits>` -/
+def hexErrName : HexErr → String
+  | .length => "hexlen"
+  | .invalidByte c => "hexbyte:" ++ String.ofList [hexDigitChar (c.toNat / 16 % 16), hexDigitChar (c.toNat % 16)]
+
 def predHex (s : List Char) : Pred :=
-  let r := hexDecodeC fixed s
+  let r := hexDecodeFullC fixed s
   match r.res with
   | .ok g => { cls := "ok", geom := some g, cost := r.cost }
-  | .error .hex => { cls := "hex", cost := r.cost }
+  | .error (.hex e) => { cls := hexErrName e, cost := r.cost }
+  | .error (.wkb e) => { cls := errName e, cost := r.cost }
+
+/-- `wkb.Read` on a scripted reader: `delivered` in pieces, then a sticky error -/
+def predStream (bs : Bytes) (e : REnd) : Pred :=
+  let r := streamDecodeC fixed bs e
+  match r.res with
+  | .ok g => { cls := "ok", geom := some g, cost := r.cost }
+  | .error .reader => { cls := "reader", cost := r.cost }
   | .error (.wkb e) => { cls := errName e, cost := r.cost }
 
 def predJ (r : CM Fault BGeom) : Pred :=
@@ -203,6 +217,8 @@ def parseCase (lhs : Tok) : Option Case :=
   match lhs with
   | ["wkb", h] => (hexToBytes (h.drop 1).toString).map fun bs => ⟨"wkb", .wkb, bs.length, predWkb bs, false⟩
   | ["wkbr", _, h] => (hexToBytes (h.drop 1).toString).map fun bs => ⟨"wkbr", .wkb, bs.length, predWkb bs, false⟩
+  | ["wkbs", m, _, h] => (hexToBytes (h.drop 1).toString).map fun bs =>
+      ⟨"wkbs", .wkb, bs.length, predStream bs (if m.startsWith "C" || m.startsWith "X" then .custom else .eof), false⟩
   | ["hex", h] => (hexToBytes (h.drop 1).toString).map fun bs =>
       ⟨"hex", .hex, bs.length, predHex (bs.map fun b => Char.ofNat b.toNat), false⟩
   | ["json", h] => (hexToBytes (h.drop 1).toString).map fun bs => ⟨"json", .json, bs.length, predJ (decodeJSON bs), false⟩
@@ -314,7 +330,7 @@ def judgeLine (line : String) : String :=
   | some c, none => s!"DIFF {c.kind}-bad-result unparsable-result {" ".intercalate (rhs.take 3)}"
   | some c, some o =>
     let p := c.pred
-    let cls := c.kind ++ "-" ++ (match p.geom with | some g => "ok-" ++ geomClass g | none => p.cls)
+    let cls := c.kind ++ "-" ++ (match p.geom with | some g => "ok-" ++ geomClass g | none => (p.cls.takeWhile (· != ':')).toString)
     -- 1. the specification, on what the implementation did
     if !total o.status then s!"SPEC {cls} not-total:{statusName o.status} {o.cls} size={c.size}"
     else if !allocOK c.family c.size o.alloc then
